@@ -248,7 +248,10 @@ class AsyncHTTP2Connection(AsyncConnectionInterface):
         # In order to gracefully handle HTTP/1.1 and HTTP/2 we always require
         # HTTP/1.1 style headers, and map them appropriately if we end up on
         # an HTTP/2 connection.
-        authority = [v for k, v in request.headers if k.lower() == b"host"][0]
+        host_values = [v for k, v in request.headers if k.lower() == b"host"]
+        if not host_values:
+            raise LocalProtocolError("Missing mandatory Host: header")
+        authority = host_values[0]
 
         headers = [
             (b":method", request.method),
